@@ -10,6 +10,7 @@ package main
 
 import (
 	"encoding/hex"
+	"encoding/json"
 	"fmt"
 	"os"
 	"sort"
@@ -226,6 +227,12 @@ func runCreate(r *gen.Rand) *CreateCase {
 		c.Nodes += r.Range(1, c.ReplicaN-1) // leaves an UnFull group
 	}
 	c.PtPer = r.Range(1, 2)
+	runCreateCase(c)
+	return c
+}
+
+func runCreateCase(c *CreateCase) *CreateCase {
+	c.Groups, c.Status, c.Oracle = nil, nil, nil
 	d := &meta2.Data{PtView: map[string]meta2.DBPtInfos{}}
 	for i := 0; i < c.Nodes; i++ {
 		d.DataNodes = append(d.DataNodes, meta2.DataNode{NodeInfo: meta2.NodeInfo{ID: uint64(i + 2)}})
@@ -323,6 +330,14 @@ func runDw(r *gen.Rand) *DwCase {
 	}
 	c.Pid = uint64(r.Int64Boundary())
 	data := randBytes(r, []int{0, 0, 1, 7, 8, 9, 30, 100}[r.Intn(8)])
+	c.Ident, c.Data = hex.EncodeToString(ident), hex.EncodeToString(data)
+	return runDwCase(c)
+}
+
+func runDwCase(c *DwCase) *DwCase {
+	c.Oracle = nil
+	ident, _ := hex.DecodeString(c.Ident)
+	data, _ := hex.DecodeString(c.Data)
 	dw := &raftlog.DataWrapper{DataType: raftlog.DataType(c.Type), Identity: string(ident), ProposeId: c.Pid, Data: data}
 	bs := dw.Marshal()
 	c.Ident, c.Data, c.Bytes = hex.EncodeToString(ident), hex.EncodeToString(data), hex.EncodeToString(bs)
@@ -353,12 +368,88 @@ func runDwBad(r *gen.Rand) *DwCase {
 		bs[4] = byte([]int{0, 1, 3, 10, 40, 200, 255}[r.Intn(7)])
 	}
 	c.Bytes = hex.EncodeToString(bs)
+	return runDwBadCase(c)
+}
+
+func runDwBadCase(c *DwCase) *DwCase {
+	bs, _ := hex.DecodeString(c.Bytes)
 	u, ok := safeUnmarshal(bs)
 	c.OK = ok
+	c.UType, c.UIdent, c.UPid, c.UData = 0, "", 0, ""
 	if ok {
 		c.UType, c.UIdent, c.UPid, c.UData = uint32(u.DataType), hex.EncodeToString([]byte(u.Identity)), u.ProposeId, hex.EncodeToString(u.Data)
 	}
 	return c
+}
+
+// runOne re-runs exactly one recorded case (its inputs) on the implementation
+func runOne(work, path string) {
+	raw, err := os.ReadFile(path)
+	if err != nil {
+		panic(err)
+	}
+	var probe struct {
+		Kind string          `json:"kind"`
+		Case json.RawMessage `json:"case"`
+	}
+	_ = json.Unmarshal(raw, &probe)
+	if probe.Kind == "" || len(probe.Case) > 0 { // a replay file: the case is under "case"
+		if len(probe.Case) > 0 {
+			raw = probe.Case
+			_ = json.Unmarshal(raw, &probe)
+		}
+	}
+	switch probe.Kind {
+	case "rot":
+		c := &RotCase{}
+		_ = json.Unmarshal(raw, c)
+		c.Oracle = nil
+		runRot(c)
+		gen.Emit(c)
+	case "rgcreate":
+		c := &CreateCase{}
+		_ = json.Unmarshal(raw, c)
+		gen.Emit(runCreateCase(c))
+	case "dw":
+		c := &DwCase{}
+		_ = json.Unmarshal(raw, c)
+		gen.Emit(runDwCase(c))
+	case "dwbad":
+		c := &DwCase{}
+		_ = json.Unmarshal(raw, c)
+		gen.Emit(runDwBadCase(c))
+	case "replay":
+		c := &ReplayCase{}
+		_ = json.Unmarshal(raw, c)
+		c.Replayed, c.Oracle, c.Err = nil, nil, ""
+		runReplayCase(work, 0, c)
+		gen.Emit(c)
+	case "ack", "ackerr":
+		c := &AckCase{}
+		_ = json.Unmarshal(raw, c)
+		c.Events, c.Acked, c.Final, c.Oracle, c.OracleSig, c.ErrAcked, c.PidReuse = nil, nil, nil, nil, nil, false, false
+		runAckCase(work, c)
+		gen.Emit(c)
+	case "conflict":
+		c := &ConflictCase{}
+		_ = json.Unmarshal(raw, c)
+		c.Applied, c.Terms, c.Oracle = nil, nil, nil
+		runConflict(work, 0, c)
+		gen.Emit(c)
+	case "coord":
+		c := &CoordCase{}
+		_ = json.Unmarshal(raw, c)
+		gen.Emit(runCoord(c))
+	case "group":
+		c := &GroupCase{}
+		_ = json.Unmarshal(raw, c)
+		c.Oracle, c.Note, c.Missing = nil, nil, 0
+		runGroupCase(work, c)
+		gen.Emit(c)
+	default:
+		fmt.Println("unknown case kind", probe.Kind)
+		os.Exit(2)
+	}
 }
 
 // ---------------------------------------------------------------- main
@@ -375,6 +466,21 @@ func main() {
 		work = "/verif/work/c05-manual"
 	}
 	_ = os.MkdirAll(work, 0755)
+	if len(os.Args) >= 3 && os.Args[1] == "one" {
+		runOne(work, os.Args[2])
+		return
+	}
+	if len(os.Args) >= 3 && os.Args[1] == "group" {
+		n, _ := strconv.Atoi(os.Args[2])
+		forced := "time"
+		if len(os.Args) > 3 {
+			forced = os.Args[3]
+		}
+		c := &GroupCase{Kind: "group", Entries: n, Forced: forced}
+		runGroupCase(work, c)
+		gen.Emit(c)
+		return
+	}
 	if len(os.Args) < 3 || os.Args[1] != "cases" {
 		fmt.Println("usage: c05 cases <n>")
 		os.Exit(2)
@@ -390,6 +496,12 @@ func main() {
 	for _, a := range corpusAck() {
 		runAckCase(work, a)
 		gen.Emit(a)
+	}
+	for _, c := range corpusCoord() {
+		gen.Emit(runCoord(c))
+	}
+	for i := 0; i < n/25+1; i++ {
+		gen.Emit(runCoord(genCoord(r.Fork())))
 	}
 	for i, c := range corpusConflict() {
 		runConflict(work, 200000+i, c)
